@@ -16,6 +16,7 @@ from ..engine import cfg as cfgmod, flow, emit
 from ..engine import pattern as pm
 from ..engine.facts import dotted, const, src, walk_func, str_value, enclosing_stmt, ancestors
 from . import skeletons as sk
+from . import c05  # declares-order is registered for C08 there
 from .common import calls, stmt_nodes, param_names, kwmap
 
 
@@ -52,8 +53,14 @@ def _is_set(e, env, db):
             return True
         if isinstance(e.func, ast.Attribute) and e.func.attr in ("declared_identifiers", "undeclared_identifiers") and not e.args:
             return True  # PythonCode identifier sets (lists/tuples for some tags: treated as sets conservatively)
-        if nm in ("sorted", "list", "tuple") and e.args:
+        if nm == "sorted":
             return False
+        if nm in ("list", "tuple", "iter", "reversed") and e.args:
+            return _is_set(e.args[0], env, db)  # keeps the set's (hash) order
+    if isinstance(e, ast.BinOp) and isinstance(e.op, ast.Add):
+        return _is_set(e.left, env, db) or _is_set(e.right, env, db)  # concatenation containing a hash-ordered part
+    if isinstance(e, (ast.ListComp, ast.GeneratorExp)) and len(e.generators) == 1:
+        return _is_set(e.generators[0].iter, env, db)
     if isinstance(e, ast.Attribute):
         if e.attr in _set_attrs(db) and ("identifiers" in (dotted(e.value) or "") or dotted(e.value) == "self"):
             return True
@@ -70,9 +77,13 @@ def _order_sensitive_sites(db, fn):
             assigns.setdefault(s.targets[0].id, []).append(s.value)
     # optimistic fixpoint: assume set where some assignment is definitely a set, then drop
     # the assumption for names with an assignment that is not a set under it
-    for k, vs in assigns.items():
-        if any(_is_set(v, {}, db) for v in vs):
-            env[k] = "set"
+    grew = True
+    while grew:
+        grew = False
+        for k, vs in assigns.items():
+            if k not in env and any(_is_set(v, env, db) for v in vs):
+                env[k] = "set"
+                grew = True
     changed = True
     while changed:
         changed = False
@@ -88,7 +99,7 @@ def _order_sensitive_sites(db, fn):
             for g in n.generators:
                 if _is_set(g.iter, env, db):
                     out.append((n, "comp", g.iter))
-        elif isinstance(n, ast.Call) and isinstance(n.func, ast.Attribute) and n.func.attr == "join" and n.args and _is_set(n.args[0], env, db):
+        elif isinstance(n, ast.Call) and isinstance(n.func, ast.Attribute) and n.func.attr == "join" and n.args and not isinstance(n.args[0], (ast.ListComp, ast.GeneratorExp)) and _is_set(n.args[0], env, db):
             out.append((n, "join", n.args[0]))
     return out
 
@@ -328,6 +339,9 @@ def one_pipeline(ctx):
         fn = db.func("template.Template." + meth)
         c = calls(fn, target)
         ctx.check(bool(c) and src(c[0].args[0]) == "self" and src(c[0].args[1]) == "self.callable_", "entry:" + meth, db.where(fn), "%s does not go through %s(self, self.callable_, ...)" % (meth, target), target)
+    rcx = db.func("runtime._render_context")
+    ok = pm.has(rcx, "($i, $l) = _populate_self_namespace($c, $t.parent)\n_exec_template($f, $c, args=$a, kwargs=$k)")
+    ctx.check(ok and any(src(p_) == "callable_" for p_ in [rcx.args.args[1]] if True) , "entry:get_def-context", db.where(rcx), "a def rendered through get_def(name).render() is not executed with the caller's own context after wiring the parent template's namespaces: it sees the base template's context (no parent, wrong local) when the template inherits", "def executed on the given context with self/local of the owning template")
     rn = db.func("runtime._render")
     ctx.check(bool(calls(rn, "_render_context")), "entry:_render->_render_context", db.where(rn), "_render does not funnel into _render_context", "_render -> _render_context")
     gd = db.func("template.Template.get_def")
